@@ -60,12 +60,23 @@ Definition op_table : list (list N * op) :=
     (lit "*", OMul); (lit "mul", OMul); (lit "||", OOr); (lit "or", OOr);
     (lit "!if", ONotIf); (lit "-", OSub); (lit "sub", OSub) ].
 
+(* the remainder after a literal prefix, if it is one *)
+Fixpoint strip_prefix (t i : list N) : option (list N) :=
+  match t with
+  | [] => Some i
+  | x :: t' => match i with
+               | y :: i' => if x =? y then strip_prefix t' i' else None
+               | [] => None
+               end
+  end.
+
+(* alt((tag(t1) -> a1, tag(t2) -> a2, ...)) *)
 Fixpoint alt_tags {A} (tbl : list (list N * A)) (i : list N) : pres A :=
   match tbl with
   | [] => PErr
-  | (t, a) :: r => match tag t i with
-                   | POk _ rest => POk a rest
-                   | _ => alt_tags r i
+  | (t, a) :: r => match strip_prefix t i with
+                   | Some rest => POk a rest
+                   | None => alt_tags r i
                    end
   end.
 
